@@ -176,16 +176,16 @@ pub async fn run_gate(case: &GateCase, firsts: &[First]) -> GateOut {
     if case.trailing_with_first {
         for p in &trailing {
             let b = refcodec::encode(speak, p).unwrap();
-            app.log(Ev::PeerSent(crate::map::brief(p)));
-            c.peer.write_quiet(&b);
+            app.log_peer(p);
+            c.peer.write_part(&b);
         }
     }
     c.settle().await;
     if cfg.hs.gated {
         // slow handshake: more traffic arrives while the handshake service is still deciding
         let mid = R::Publish { dup: false, qos: 0, retain: false, topic: "g/mid".into(), pid: None, props: vec![], payload: vec![9] };
-        app.log(Ev::PeerSent(crate::map::brief(&mid)));
-        c.peer.write_quiet(&refcodec::encode(speak, &mid).unwrap());
+        app.log_peer(&mid);
+        c.peer.write_part(&refcodec::encode(speak, &mid).unwrap());
         c.settle().await;
         let early = app.count(|e| matches!(e, Ev::PubEnter { .. } | Ev::ProtoEnter { .. }));
         if early > 0 {
@@ -197,8 +197,8 @@ pub async fn run_gate(case: &GateCase, firsts: &[First]) -> GateOut {
     if !case.trailing_with_first {
         for p in &trailing {
             if c.peer.is_open() {
-                app.log(Ev::PeerSent(crate::map::brief(p)));
-                c.peer.write_quiet(&refcodec::encode(speak, p).unwrap());
+                app.log_peer(p);
+                c.peer.write_part(&refcodec::encode(speak, p).unwrap());
             }
         }
         c.settle().await;
